@@ -433,6 +433,10 @@ fn main() {
                 raw_class.push((*i, cname.clone()));
                 *outcomes.entry("raw-strings: into_bytes on Vec<u8> (class)".into()).or_default() += 1;
             }
+            "fail" if r["stage"] == "machinery" => {
+                scratch.remove();
+                vcommon::machinery(&format!("{} [{}]: {}", cases[*i].id, r["config"].as_str().unwrap_or(""), r["msg"].as_str().unwrap_or("")));
+            }
             "fail" => {
                 let stage = r["stage"].as_str().unwrap_or("?").to_string();
                 let msg = r["msg"].as_str().unwrap_or("").to_string();
